@@ -1,5 +1,8 @@
 //! Correspondence harness: runs the real desert library (built from /repo's working tree)
 //! on case files and prints one canonical observation per case.
+mod codec;
+mod dynval;
+mod sx;
 mod util;
 mod varint;
 
@@ -11,6 +14,7 @@ fn main() {
     }
     let rest = &args[2..];
     match args[1].as_str() {
+        "codec" => codec::cases(rest),
         "varint-cases" => varint::cases(rest),
         "varint-sweep" => varint::sweep(rest),
         other => {
